@@ -119,7 +119,7 @@ def daemon_class(P, hookraise):
     return HookRaisingDaemon
 
 
-def run_history(h, shape, creator_kind, servertype="multiplex", hookraise=False):
+def run_history(h, shape, creator_kind, servertype="multiplex", hookraise=False, two_daemons=False):
     import Pyro5.api as P
     from Pyro5 import config
     config.SERVERTYPE = servertype
@@ -136,8 +136,24 @@ def run_history(h, shape, creator_kind, servertype="multiplex", hookraise=False)
         drv = memnet.ServerDriver(d)
         conns = {}
         inc = itertools.count(1)
-        for step in h:
+        daemons = [(d, drv)]
+        for si, step in enumerate(h):
             a, c, k = step["a"], step["c"], step["k"]
+            if two_daemons and si == len(h) // 2:
+                # a second daemon in the same process takes over the same classes; the connections move to it
+                d2 = daemon_class(P, hookraise)(host="127.0.0.1")
+                uris = {K: d2.register(cls, K) for K, cls in classes.items()}
+                daemons.append((d2, memnet.ServerDriver(d2)))
+                tr.append({"e": "newdaemon"})
+                for cc in list(conns):
+                    cid, p = conns.pop(cc)
+                    p._pyroRelease()
+                    sc.quiesce()
+                    tr.append({"e": "close", "c": cid, "alive": alive_after_close(stats, cid)})
+                    p = P.Proxy(uris["S"])
+                    p._pyroBind()
+                    conns[cc] = (next(inc), p)
+                    tr.append({"e": "open", "c": conns[cc][0]})
             if a == "open":
                 p = P.Proxy(uris["S"])
                 p._pyroBind()
@@ -165,8 +181,9 @@ def run_history(h, shape, creator_kind, servertype="multiplex", hookraise=False)
             sc.quiesce()
             tr.append({"e": "close", "c": cid, "alive": alive_after_close(stats, cid)})
         p = None
-        drv.shutdown()
-        d.close()
+        for dd, dv in daemons:
+            dv.shutdown()
+            dd.close()
     res, sc = memnet.run(main)
     if res.get("hang"):
         tr.append({"e": "hang"})
@@ -248,8 +265,10 @@ def run(ctx):
         for i, h in enumerate(hs[:n_plain]):
             hr = i % 3 == 2
             st = "thread" if i % 4 == 3 else "multiplex"
-            traces.append(run_history(h, shape, "none", servertype=st, hookraise=hr))
-            metas.append({"part": "history" + ("-threadserver" if st == "thread" else ""), "shape": shape, "creator": "none", "h": h, "hookraise": hr})
+            two = i % 5 == 1        # a second daemon in the same process takes over half way
+            traces.append(run_history(h, shape, "none", servertype=st, hookraise=hr, two_daemons=two))
+            metas.append({"part": "history" + ("-threadserver" if st == "thread" else ""), "shape": shape, "creator": "none", "h": h, "hookraise": hr,
+                          "two_daemons": two})
     for creator in CREATORS[1:]:
         for shape in ("truthy", "falsy_len"):
             for h in hs[n_plain:n_plain + n_creator]:
@@ -311,7 +330,7 @@ def replay(ctx, path):
             print("replay of race cases: rerun the check (schedules are re-explored)")
             continue
         tr = run_history(meta["h"], meta["shape"], meta["creator"], "thread" if "thread" in meta["part"] else "multiplex",
-                         hookraise=meta.get("hookraise", False))
+                         hookraise=meta.get("hookraise", False), two_daemons=meta.get("two_daemons", False))
         v, _ = tlc.validate(ctx, "Trace_Inst", [tr], cfg="Trace_Inst.cfg")
         print("replay:", meta["shape"], meta["creator"], "->", v[0] or "accepted")
         bad += bool(v[0])
